@@ -492,6 +492,23 @@ def parseDTCode (s : String) : Option DT :=
   | "b1" => some .bool
   | _ => none
 
+/-- the neutral start value the SPECIFICATION prescribes for a named operation on dtype `dt`
+    (what `C06.rowOk` demands of the table extracted from the source).  The model folds with
+    this value, not with the filler found in the source, so that a wrong filler in the code
+    shows up as a difference between implementation and model. -/
+def neutralFiller (ufunc : String) (dt : DT) : Option Val :=
+  match ufunc, dt with
+  | "add", _ => some (.num 0 0)
+  | "multiply", _ => some (.num 1 0)
+  | "bitwise_or", _ => some (.num 0 0)
+  | "bitwise_xor", _ => some (.num 0 0)
+  | "bitwise_and", .int b sg => some (.num (if sg then -1 else 2 ^ b - 1) 0)
+  | "fmax", .int b sg => some (.num (if sg then -(2 ^ (b - 1)) else 0) 0)
+  | "fmax", .flt _ => some (.inf true)
+  | "fmin", .int b sg => some (.num (if sg then 2 ^ (b - 1) - 1 else 2 ^ b - 1) 0)
+  | "fmin", .flt _ => some (.inf false)
+  | _, _ => none
+
 /-- `_apply_operation(map_list, func, filler, union, int_only, fill_with_first_map, dtype_out)` -/
 def apiMultiOp (row : OpRow) (maps : List MapObj) : Except Err MapObj := do
   if maps.length < 2 then throw .runtime
@@ -524,7 +541,11 @@ def apiMultiOp (row : OpRow) (maps : List MapObj) : Except Err MapObj := do
     | k, none => k
   -- type promotion by the filler: the array must keep the output dtype
   if row.promoted != (if isWide then "u1" else dtCode dtOut) then throw .value
-  let filler : Val := match first.kind, row.filler with
+  -- named operations fold from the specification's neutral element; `ufunc_*` from the user's value
+  let fillerSpec : Val :=
+    if row.name == "ufunc_union" || row.name == "ufunc_intersection" || row.fillFirst then row.filler
+    else (neutralFiller row.ufunc (if isWide then .int 8 false else dtOut)).getD row.filler
+  let filler : Val := match first.kind, fillerSpec with
     | .wide n, .num k _ => .bytes (List.replicate n k.toNat)
     | _, v => v
   let vc : VCfg Val := ⟨kindOut.blank first.sent, kindOut.valid first.sent⟩
